@@ -90,19 +90,20 @@ def run_case(ctx, rep, spec, cn, posname, pos, fields, limit, model, path=None, 
                                         bs.append((lo[cn], truth[(l2, bid)][tuple(ix) + (k,)]))
                                 levels.append(bs)
                             got_v = data[i - lo2[0], j - lo2[1], fi]
-                            sv = c07.spec_value(spec, levels, cn, pos)
+                            sv, cands = c07.spec_candidates(spec, levels, cn, pos)
+                            knife = len(cands) > 1 and max(cands) - min(cands) > TOL * max(1.0, max(abs(c) for c in cands))
                             what = None
                             if np.isnan(got_v):
                                 what = "cell written from never-initialised memory (NaN taint)"
-                            elif sv is None:
+                            elif not cands:
                                 what = "specification has no sample for a written cell"
-                            elif abs(got_v - float(sv[0])) > TOL * max(1.0, abs(float(sv[0]))):
-                                what = f"value {got_v} is not level {lv}'s interpolation onto the plane ({float(sv[0])})"
+                            elif min(abs(got_v - c) / max(1.0, abs(c)) for c in cands) > TOL:
+                                what = f"value {got_v} is not level {lv}'s interpolation onto the plane ({sorted(set(cands))})"
                             if what:
                                 nbadcells += 1
                                 if nbadcells <= 2:
                                     rep.fail(what, dict(case, level=lv, cell=[i, j], field=fname))
-                            elif batch is not None and not big:
+                            elif batch is not None and not big and not knife and sv is not None:
                                 cfg = {"op": "column", "fixed": True, "N": spec["grid0"][cn], "g": c07.J(spec["geo_low"][cn]), "G": c07.J(G[cn]),
                                        "d0": c07.J(spec["dx0"][cn]), "pos": c07.J(pos),
                                        "levels": [[{"a": a, "vals": [c07.J(float(v)) for v in vals]} for a, vals in bs] for bs in levels]}
@@ -155,7 +156,8 @@ def run(ctx, rep, model=True):
     n = 6 if ctx.quick else 24
     for i in range(n):
         spec = plotgen.random_spec(ctx.rng, ndims=3, nlev=[2, 3, 1, 2][i % 4], nf=2, data=["smallint", "affine"][i % 2], B=2,
-                                   nblk=[[2, 1, 2], [1, 2, 1], [2, 2, 1]][i % 3], origin=True, aniso=True, refine_p=0.4, layout="scatter")
+                                   nblk=[[2, 1, 2], [1, 2, 1], [2, 2, 1]][i % 3], origin=True, aniso=True, refine_p=0.4, layout="scatter",
+                                   exact=(i % 3 != 2))     # every third mesh: cell sizes / origin that are no dyadic numbers
         path = ctx.newdir("c16_")
         truth = plotgen.materialize(spec, path)
         names = list(dedup_names(spec["fields"]))
